@@ -10,6 +10,7 @@ CONSTANTS
   MaxK = 3
   SteadyT = 6
   SolveOK <- MC_SolveAny
+  EditOK <- MC_EditAny
   AsFound_SubstitutesVarWithIC = FALSE
 POSTCONDITION AllConsumed
 CHECK_DEADLOCK FALSE
